@@ -3699,6 +3699,19 @@ func (r *Resolver) processDelegation(ctx context.Context, rs *resolveState, resp
 		}
 	}
 
+	// The 12h lease ceiling bounds the lease itself, anchored at the
+	// observation like the TTL bounds above — not only the stored entry.
+	// SetUntil clamps what the delegation cache keeps, but this deadline is
+	// also reported to the answer cache (noteCut) and inherited by every
+	// deeper delegation of this resolution. Left at the raw NS/DS TTL, an
+	// answer learned through a 2-day referral stayed servable for its own
+	// TTL (up to 24h) after the delegation it came through had lapsed at
+	// 12h — only in the resolution that learned the referral, since later
+	// ones seed their cut from the clamped ExpiresAt.
+	if ceiling := observedAt.Add(authority.MaxLease); leaseDeadline.After(ceiling) {
+		leaseDeadline = ceiling
+	}
+
 	// Inherit the ancestor cut: a descendant delegation can never outlive
 	// the shallowest delegation on its path (Phoenix T2). This absolute
 	// deadline is stored verbatim (SetUntil), never reconstructed from a
